@@ -20,9 +20,29 @@ def pairwiseB {α : Type} (r : α → α → Bool) : List α → Bool
   | [] => true
   | x :: xs => xs.all (r x) && pairwiseB r xs
 
+/-- `n` zero bytes -/
+def bytesAreZero (n : Nat) (v : Bytes) : Bool := v == List.replicate n 0
+
+/-- recogniser of the default-constructed object -/
+def isDflt : (ty : Ty) → Val ty → Bool
+  | .pod n, v => bytesAreZero n v
+  | .str, v => v.isEmpty
+  | .vecPod _, v => v.isEmpty
+  | .seq _, v => v.isEmpty
+  | .set _, v => v.isEmpty
+  | .map _ _, v => v.isEmpty
+  | .pair a b, v => isDflt a v.1 && isDflt b v.2
+  | .ptr _, v => v.isNone
+  | .mset _, v => v.isEmpty
+  | .mmap _ _, v => v.isEmpty
+  | .arr t n, v => v.length == n && v.all (isDflt t)
+  | .json, v => JsonCodec.isDflt v
+  | .tagged a b, v => bytesAreZero 4 v.1 && isDflt a v.2.1 && isDflt b v.2.2
+
 /-- well-formed values: PODs have their size, POD vectors a whole number of elements, sets and map
 keys are strictly increasing, multisets and multimap keys non-decreasing (what the containers can hold),
-arrays have their length -/
+arrays have their length; a tagged user class holds default values in the members its kind does not select (those
+members are not serialised, so anything else would be lost by the class's own `serialize`) -/
 def wf : (ty : Ty) → Val ty → Bool
   | .pod n, v => v.length == n
   | .str, _ => true
@@ -39,6 +59,11 @@ def wf : (ty : Ty) → Val ty → Bool
   | .mmap k w, v => v.all (fun x => wf k x.1 && wf w x.2) && pairwiseB (fun x y => !lt k y.1 x.1) v
   | .arr t n, v => v.length == n && v.all (wf t)
   | .json, _ => true
+  | .tagged a b, v =>
+    v.1.length == 4 &&
+      (if tagSel v.1 == 1 then wf a v.2.1 && isDflt b v.2.2
+       else if tagSel v.1 == 2 then isDflt a v.2.1 && wf b v.2.2
+       else isDflt a v.2.1 && isDflt b v.2.2)
 
 /-- the guard under which `write_chunk`'s `uint32_t size = len` and the `size_t` element counts do
 not truncate: every chunk payload is shorter than 2^32 bytes, every count below 2^64 -/
@@ -61,6 +86,7 @@ def sizesFit : (ty : Ty) → Val ty → Bool
     match JsonCodec.write v with
     | some text => decide (text.length < 2 ^ 32)
     | none => false
+  | .tagged a b, v => if tagSel v.1 == 1 then sizesFit a v.2.1 else if tagSel v.1 == 2 then sizesFit b v.2.2 else true
 
 def allP {α : Type} (P : α → Prop) (l : List α) : Prop := ∀ x ∈ l, P x
 def optP {α : Type} (P : α → Prop) (o : Option α) : Prop := ∀ x, o = some x → P x
@@ -80,6 +106,7 @@ def jsonRT : (ty : Ty) → Val ty → Prop
   | .mmap k w, v => allP (fun x => jsonRT k x.1 ∧ jsonRT w x.2) v
   | .arr t _, v => allP (jsonRT t) v
   | .json, v => ∃ text, JsonCodec.write v = some text ∧ JsonCodec.read text = some v
+  | .tagged a b, v => (tagSel v.1 = 1 → jsonRT a v.2.1) ∧ (tagSel v.1 = 2 → jsonRT b v.2.2)
 
 /-- types with a value `operator<` in C++ (usable as keys of the ordered containers): everything except smart
 pointers (they compare addresses) and `json::value` (no `operator<`) -/
@@ -96,6 +123,14 @@ def keyable : Ty → Bool
   | .mmap k w => keyable k && keyable w
   | .arr t _ => keyable t
   | .json => false
+  | .tagged _ _ => false
+
+/-- `Steps ld s l s'`: starting in state `s`, the elements of `l` are produced one after the other by the *same*
+state-only function `ld` (each from the state the previous one left), ending in `s'`: no element's result depends
+on the value of another element. -/
+inductive Steps {α : Type} (ld : St → Res α) : St → List α → St → Prop
+  | nil (s : St) : Steps ld s [] s
+  | cons (s s1 s2 : St) (a : α) (as : List α) : ld s = .ok a s1 → Steps ld s1 as s2 → Steps ld s (a :: as) s2
 
 /-- types whose archives are canonical (no set/map re-ordering, no pointer flag): a successful load
 must have consumed exactly `save` of the value it returned -/
@@ -112,6 +147,7 @@ def flat : Ty → Bool
   | .mmap _ _ => false
   | .arr t _ => flat t
   | .json => false
+  | .tagged a b => flat a && flat b
 
 /-- Judge for one successful load of the real code: archive `b`, returned value `v`, final `ptr_ = p`.
 The cursor stayed inside the archive, the value is one the C++ type can hold, and for canonical
